@@ -8,7 +8,7 @@
   Helpers: Proofs/C03.lean (model = spec), C03Field.lean (ZMod p / ZMod n reading of the Nat arithmetic,
   square roots, −7 not a cube), C03Group.lean (`SecpGroupLaw`, curve points as a group, k·P), C03Curve.lean
   (`SecpGroupLaw` from Mathlib's Weierstrass group), C03Ecdsa.lean (sign/verify/recover), C03Der.lean
-  (DER), C03Schnorr.lean (BIP340 signing).
+  (DER), C03Schnorr.lean (BIP340 signing), C03Recover.lean (recovery on arbitrary input, nonce x ≥ n).
 -/
 import GocoinV.Proofs.C03
 import GocoinV.Proofs.C03Field
@@ -17,6 +17,7 @@ import GocoinV.Proofs.C03Curve
 import GocoinV.Proofs.C03Ecdsa
 import GocoinV.Proofs.C03Der
 import GocoinV.Proofs.C03Schnorr
+import GocoinV.Proofs.C03Recover
 namespace GocoinV.Props.C03
 open GocoinV GocoinV.Secp GocoinV.Model GocoinV.C03 GocoinV.Proofs.C03
 
@@ -98,6 +99,80 @@ example : zero32.length = 32 := by decide
 theorem parseBytes_is_container (sig : Bytes) :
     (Sig.parseBytes sig).map (fun t => (t.1, t.2.1)) = Spec.Ecdsa.decodeSig sig :=
   parseBytes_eq sig
+
+/-! ### the reduction "x(R) mod n": nonce points with n ≤ x(R) < p
+
+  n < p, so about 2^128 curve points have an x-coordinate in [n, p); a signature made with such a nonce
+  point carries r = x(R) − n. Signing reaches one with probability 2^-128, so the case is stated
+  (and replayed on the real code by the harness, classes `rx-ge-n-*`, `rx-twin-*`, op `recov`) with
+  algebraically constructed triples: R first, then the key. -/
+
+/-- the curve point with x = p − 3 (odd y): n ≤ x -/
+def xHi : Nat := 115792089237316195423570985008687907853269984665640564039457584007908834671660
+def yHi : Nat := 6603225675942137755722016048183769717410321709583529039474051610042430502525
+/-- Q = R − G (compressed), r = s = m = x(R) − n  (u1 = u2 = 1): a valid triple whose nonce point is R -/
+def pkHi : Bytes := [2, 35, 201, 96, 14, 149, 104, 87, 71, 232, 157, 203, 144, 91, 255, 245, 161, 92, 119, 192, 58, 46, 41, 115, 65, 110, 54, 212, 115, 233, 206, 159, 114]
+def sigHi : Bytes := [48, 38, 2, 17, 1, 69, 81, 35, 25, 80, 183, 95, 196, 64, 45, 161, 114, 47, 201, 186, 235, 2, 17, 1, 69, 81, 35, 25, 80, 183, 95, 196, 64, 45, 161, 114, 47, 201, 186, 235]
+def msgHi : Bytes := [0, 0, 0, 0, 0, 0, 0, 0, 0, 0, 0, 0, 0, 0, 0, 1, 69, 81, 35, 25, 80, 183, 95, 196, 64, 45, 161, 114, 47, 201, 186, 235]
+
+/-- `Signature.Verify` compares r with x(R) REDUCED modulo n: whenever s is in range and the point
+    u1·G + u2·Q the verifier computes is the finite point (x, y), the signature is accepted exactly
+    when r = x mod n (and r ≠ 0) — in particular for n ≤ x < p it is r = x − n that is accepted, and
+    x itself (≥ n) that is refused. -/
+theorem verify_reduces_x_mod_n (r s m x y : Nat) (Q : Point) (hs0 : 0 < s) (hsn : s < n)
+    (hpt : Sig.ecmult Q ((Sig.modInvN s * r % n : Nat) : Int) (Sig.modInvN s * m % n) = some (x, y)) :
+    Sig.sigVerify true r s Q m = true ↔ (r ≠ 0 ∧ r = x % n) := by
+  have hnp : 0 < n := by decide
+  have hxn : x % n < n := Nat.mod_lt _ hnp
+  unfold Sig.sigVerify Sig.recompute
+  simp only [hpt]
+  by_cases hr : r = 0 ∨ r ≥ n
+  · have hc : True ∧ (r = 0 ∨ r ≥ n ∨ s = 0 ∨ s ≥ n) := ⟨trivial, by omega⟩
+    rw [if_pos hc]
+    constructor
+    · intro h; exact absurd h (by simp)
+    · rintro ⟨h0, he⟩; omega
+  · have hc : ¬ (True ∧ (r = 0 ∨ r ≥ n ∨ s = 0 ∨ s ≥ n)) := by omega
+    rw [if_neg hc]
+    simp only [beq_iff_eq]
+    constructor
+    · intro h; exact ⟨by omega, h⟩
+    · exact fun h => h.2
+
+/-- non-vacuity: the verifier's point for (pkHi, r = s = m = x − n) is (xHi, yHi), with n ≤ xHi -/
+example : 0 < xHi - n ∧ xHi - n < n ∧ n ≤ xHi ∧
+    Sig.ecmult (Secp.parsePubkey pkHi) ((Sig.modInvN (xHi - n) * (xHi - n) % n : Nat) : Int)
+      (Sig.modInvN (xHi - n) * (xHi - n) % n) = some (xHi, yHi) := by
+  decide +kernel
+
+/-- the spec, the model of `btc.EcdsaVerify` and therefore (`ecdsa_accept_iff`) the acceptance
+    predicate all hold on a triple whose nonce point has x ≥ n: key Q = R − G, r = s = m = x(R) − n. -/
+example : Secp.add (Secp.parsePubkey pkHi) G = some (xHi, yHi) ∧ n ≤ xHi ∧ xHi < p ∧
+    xHi % n = beVal msgHi ∧ Spec.Ecdsa.decodeSig sigHi = some (xHi - n, xHi - n) := by
+  decide +kernel
+
+example : Spec.Ecdsa.Accepts pkHi sigHi msgHi := by
+  rw [← verify_iff]; decide +kernel
+
+example : Sig.ecdsaVerify true pkHi sigHi msgHi = true := by decide +kernel
+
+/-- Public-key recovery on ARBITRARY input, both x candidates: when
+    `RecoverPublicKey(r, s, h, recid)` returns a (finite) key Q, then `Signature.Verify` accepts (r, s)
+    for Q and h — with recid bit 1 set the nonce point has x = r + n ≥ n, and the verifier has to
+    reduce it to r. Hypothesis: the reconstructed nonce point (`recoverNonce`: x = r or r + n, y of the
+    requested parity) has order dividing n. (True of every point of secp256k1 — the group has prime
+    order n — but that is a point count, not proved; a kernel evaluation for any concrete point.)
+    -- OPEN: recover_verifies without `hord` (needs #E(F_p) = n). -/
+theorem recover_verifies_partial (r s recid : Nat) (hb : Bytes) (Q : Nat × Nat)
+    (h : Sig.recoverPublicKey r s hb recid = some (some Q))
+    (hord : mul n (recoverNonce r recid) = none) :
+    Sig.sigVerify true r s (some Q) (beVal hb) = true :=
+  recover_verifies_core r s recid hb Q h hord
+
+/-- non-vacuity on the nonce point with x = p − 3 ≥ n (recid = 3: bit 1 = "x is r + n", bit 0 = odd y;
+    s = r, message value 0, so the recovered key is the nonce point itself) -/
+example : Sig.recoverPublicKey (xHi - n) (xHi - n) zero32 3 = some (some (xHi, yHi)) := by decide +kernel
+example : mul n (recoverNonce (xHi - n) 3) = none := by decide +kernel
 
 /-! ### own signatures -/
 
